@@ -232,10 +232,12 @@ def gen_plan(seed, logic_mix):
     cfg = {
         'logic': logic,
         'natoms': rng.choice([2, 2, 3]),
-        'nmax': 4 if logic == 'LTL' else 5,
+        'nmax': {'LTL': rng.choice([4, 4, 4, 5]),
+                 'CTLS': rng.choice([5, 5, 5, 6]),
+                 'CTL': rng.choice([5, 5, 5, 6, 7, 8])}[logic],
         'density': rng.choice([0.2, 0.5, 0.8]),
         'shape': rng.choice(gen.SHAPES),
-        'depth': rng.choice([1, 2, 3, 3, 4]) if logic == 'CTL'
+        'depth': rng.choice([1, 2, 3, 3, 4, 5]) if logic == 'CTL'
         else rng.choice([1, 2, 2, 3]),
         'tmax': rng.choice([1, 2, 2, 3]),
         'pconst': rng.choice([0.05, 0.12, 0.3]),
